@@ -254,8 +254,8 @@ def _objective_sign_adapted(ctx, f, arg):
     return True, ""
 
 
-def r13_2(ctx: Ctx):
-    """R13.2 every maximize switch has dual arms with the polarity its role demands."""
+def r13_2(ctx: Ctx, check_roles: bool = True):
+    """R13.2 every maximize switch has dual arms (and, for the properties that need it, the polarity its role demands)."""
     sw = find_switches(ctx)
     if len(sw) < 11:
         raise AnalysisError(f"only {len(sw)} maximize switches found (12 confirmed by hand)")
@@ -284,6 +284,10 @@ def r13_2(ctx: Ctx):
             obs.append(ctx.ob("R13.2", s.f, s.node, status=VIOLATION, detail=f"the two arms of the maximize switch are not duals of each other: maximise -> {ta}, minimise -> {tb}", construct="dual:" + s.f.short))
             continue
         pol = polarity(ta)
+        if not check_roles:
+            # C13 itself: (f, maximise) and (-f, minimise) take the same decision as soon as the two arms are duals
+            obs.append(ctx.ob("R13.2", s.f, s.node, detail=f"dual arms ({pol} when maximising)", construct="dual:" + s.f.short))
+            continue
         want = role[0] if role else DEFAULT_POLARITY.get(pol)
         if want is None:
             obs.append(ctx.ob("R13.2", s.f, s.node, detail=f"dual arms ({pol} when maximising); role not tabled, no default for this kind", construct="dual:" + s.f.short))
@@ -292,6 +296,13 @@ def r13_2(ctx: Ctx):
         else:
             obs.append(ctx.ob("R13.2", s.f, s.node, status=VIOLATION if role else INCONCLUSIVE, detail=f"the arms of the maximize switch are swapped: when maximising it takes {pol}, its role demands {want}" + (f" ({role[1]})" if role else ""), construct="dual:" + s.f.short))
     return obs
+
+
+def r13_2_c13(ctx: Ctx):
+    """R13.2 (as C13 needs it) every maximize switch has dual arms; the DE / SHADE replacement mask decides the same way in both directions."""
+    from . import replacement
+
+    return r13_2(ctx, check_roles=False) + replacement.obligations(ctx, "R13.2", "symmetric")
 
 
 def _is_individual_collection(ctx, f, e) -> bool:
@@ -315,7 +326,7 @@ def _is_individual(ctx, f, e) -> bool:
     return any(y[0] == "inst" and y[1].endswith(".Individual") for y in ms)
 
 
-def r13_3(ctx: Ctx):
+def r13_3(ctx: Ctx, symmetric_only: bool = False):
     """R13.3 ordering operations on Individuals use the direction-aware order once: max / sorted(reverse=True) / `>`; no min, no ascending sort, no direction-dependent reverse=."""
     find_switches(ctx)
     obs = []
@@ -342,7 +353,10 @@ def r13_3(ctx: Ctx):
                 if target is None:
                     continue
                 n += 1
-                if kind == "min":
+                if symmetric_only and (kind in ("min", "max") or rev is None or isinstance(rev, ast.Constant)):
+                    # C13 itself: any fixed use of the direction-aware order picks the same individuals for (f, max) and (-f, min)
+                    obs.append(ctx.ob("R13.3", f, c, detail=f"`{norm(c)[:60]}`: fixed use of the direction-aware order"))
+                elif kind == "min":
                     obs.append(ctx.ob("R13.3", f, c, status=VIOLATION, detail=f"`{norm(c)[:80]}` selects the WORST individual in the problem's direction (best = max under the Individual order)"))
                 elif kind == "max":
                     obs.append(ctx.ob("R13.3", f, c, detail="best individual via max() under the direction-aware order"))
@@ -364,6 +378,11 @@ def r13_3(ctx: Ctx):
     if n < 8:
         raise AnalysisError(f"only {n} ordering operations on individuals found (>= 10 confirmed by hand)")
     return obs
+
+
+def r13_3_c13(ctx: Ctx):
+    """R13.3 (as C13 needs it) the order of individuals never depends on the direction a second time (no `reverse=<direction>`)."""
+    return r13_3(ctx, symmetric_only=True)
 
 
 def _const_fold(e):
@@ -540,8 +559,8 @@ def r13_6(ctx: Ctx):
 
 RULES = [
     ("R13.1", r13_1, 14),
-    ("R13.2", r13_2, 11),
-    ("R13.3", r13_3, 8),
+    ("R13.2", r13_2_c13, 11),
+    ("R13.3", r13_3_c13, 8),
     ("R13.4", r13_4, 3),
     ("R13.5", r13_5, 2),
     ("R13.6", r13_6, 1),
